@@ -46,7 +46,7 @@ pub struct Sc {
     pub exhaust: Option<u32>,
 }
 
-pub fn runs_for(tier: Tier) -> u64 {
+pub fn runs_for(_prop: &str, tier: Tier) -> u64 {
     match tier {
         Tier::Quick => 6144,
         Tier::Thorough => 40960,
@@ -149,7 +149,7 @@ fn is_service_like(env: &SEnv, t: &SType) -> bool {
     matches!(env.unfold(t), SType::Service(_))
 }
 
-pub fn generate(tier: Tier, seed: u64, run: u64) -> Sc {
+pub fn generate(_prop: &str, tier: Tier, seed: u64, run: u64) -> Sc {
     let mut rng = Rng::new(mix(seed, &["C05", "gamma"], run));
     let mut knobs = rng.split("knobs");
     let mut wl = rng.split("workload");
